@@ -61,12 +61,13 @@ class VOpts:
         assign_order='fwd',      # fwd | rev  (textual order of assign statements)
         alias_chain=False,       # route one output through a chain of two assigns
         concat_assign=False,     # drive output bus through one concatenation assign
+        multi_module=False,      # the file holds a second module first, which declares the same names with the opposite directions
     )
     CHOICES = dict(
         in_decl=['bus_desc', 'bus_asc', 'bus_mixed', 'bus_off', 'bus_hi', 'bus_hi_asc'], wire_decl=['bus'], out_ref=['whole'], in_ref=['whole', 'whole_off'], out_decl=['bus_desc', 'bus_asc'], port_order=[1, 2, 3],
         stmt_order=['inst_first', 'interleaved', 'inst_reversed'], pin_order=['rev', 'out_first'], out_style=['assign'],
         escape=[True], noise=['line_comment', 'block_comment', 'star_comment', 'attribute', 'star_attribute', 'tabs_newlines', 'crlf'], redeclare=[True],
-        const_style=['bus', 'bus4h', 'bus3d', 'alias', 'alias_rev'], const_spelling=['h', 'd', 'B', 'H', 'D'], open_pin=['empty'], assign_order=['rev'], alias_chain=[True, 'rev'], concat_assign=[True, 'vec_rhs', 'vec_lhs'],
+        const_style=['bus', 'bus4h', 'bus3d', 'alias', 'alias_rev'], const_spelling=['h', 'd', 'B', 'H', 'D'], open_pin=['empty'], assign_order=['rev'], alias_chain=[True, 'rev'], concat_assign=[True, 'vec_rhs', 'vec_lhs'], multi_module=[True],
     )
 
     def __init__(self, **kw):
@@ -257,6 +258,13 @@ def verilog(nl, cmap, dffcell, opts, const_gate_inputs=None):
         for x in itertools.zip_longest(decl, inst, assigns):
             body += [y for y in x if y is not None]
     text = f'module top ({", ".join(header)});\n' + '\n'.join('  ' + b for b in body) + '\nendmodule\n'
+    if opts.multi_module and opts.in_decl == 'scalar' and opts.out_decl == 'scalar' and nI >= 1 and nO >= 1 and 'INV1' in cmap:
+        # every module of a file is translated on its own: declarations of an earlier module do not carry over
+        icell, ipins, opin = cmap['INV1']
+        others = [f'i{k}' for k in range(1, nI)] + [f'o{j}' for j in range(1, nO)] + (['clk'] if nl.states else [])
+        decoy = (f'module decoy ({", ".join(["o0", "i0"] + others)});\n  input o0;\n  output i0;\n' + ''.join(f'  input {x};\n' for x in others)
+                 + f'  {icell} u_d (.{ipins[0]}(o0), .{opin}(i0));\nendmodule\n\n')
+        text = decoy + text
     text = add_noise(text, opts.noise)
     return text, expected_ports, inst_names, [in_name(k, port=True) for k in range(nI)], [('o[0]' if whole else out_name(j)) for j in range(nO)]
 
